@@ -202,4 +202,11 @@ def ensurePort (addrb : Buf) : Res (List UInt8) :=
         rdInt addrb ((k : Int) - 1) >>= fun prev =>              -- cr[-1]
           if prev != 0x5d then .ok plus0 else .ok addr
 
+/-- What is assumed of libc's `inet_ntop` / `inet_pton` (they are not modelled): printing a 4- / 16-byte address
+    succeeds and gives a C string (no NUL) which `inet_pton` maps back to the same bytes; the IPv4 text contains no
+    `':'`, the IPv6 text contains at least one (this is how `sock_resolve` tells them apart). -/
+structure InetLaws (pton4 pton6 ntop4 ntop6 : List UInt8 → Option (List UInt8)) : Prop where
+  v4 : ∀ a, a.length = 4 → ∃ t, ntop4 a = some t ∧ pton4 t = some a ∧ (∀ c ∈ t, c ≠ 0x3a) ∧ (∀ c ∈ t, c ≠ 0)
+  v6 : ∀ a, a.length = 16 → ∃ t, ntop6 a = some t ∧ pton6 t = some a ∧ 0x3a ∈ t ∧ (∀ c ∈ t, c ≠ 0)
+
 end Percival.Model.SockAddr
